@@ -13,10 +13,13 @@
   is checked by the implementation-side predicate (same plaintext and identities
   as the direct entry point).
   Partial: prefix stability of the armored classifier is proved for every prefix
-  of the frame line and for texts that do not yet show a full first block;
-  beyond that (first block present) it is the binary classifier on the decoded
-  bytes (`C16_armored_sound`), covered for genuine messages by the
-  every-prefix correspondence.
+  of the frame line — canonical or re-flowed —, for the frame with its period, and
+  for texts that do not yet show a full first block; beyond that (first block
+  present) it is the binary classifier on the bytes decoded from this very prefix
+  (`C16_armored_sound`), covered for genuine messages by the every-prefix
+  correspondence.  Non-consumption itself (the reader still delivers every byte
+  afterwards) is observed by the correspondence (remaining-bytes check); the
+  model side is `C16_peeks_only`.
 -/
 import Saltpack.Proofs.ClassifyLemmas
 
@@ -76,10 +79,40 @@ theorem C16_armored_needs_block (typ : Int) (ht : Armorable typ) (brand : Bytes)
     armoredPrefix (Armor.header typ brand ++ [Armor.period, Armor.space] ++ body) = .short :=
   arm_needs_block typ ht brand hb body hbody hfew
 
+/-- **Armored, prefix stability (re-flowed frame)**: every prefix of every
+    *variant* of a genuine frame line (separating spaces replaced by arbitrary
+    non-empty runs of space / tab / CR / LF / '>', such runs added around — the
+    notion of C11) is "short", never "not saltpack" -/
+theorem C16_armored_reflowed_prefix (typ : Int) (ht : Armorable typ) (brand : Bytes) (hb : BrandOK brand)
+    (f' : Bytes) (hv : FrameVariant (Armor.header typ brand) f') (k : Nat) :
+    armoredPrefix (f'.take k) = .short :=
+  arm_variant_prefix_short typ ht brand hb f' hv k
+
+/-- **Armored, prefix stability (the period)**: the frame line with just its period -/
+theorem C16_armored_frame_period (typ : Int) (ht : Armorable typ) (brand : Bytes) (hb : BrandOK brand) :
+    armoredPrefix (Armor.header typ brand ++ [Armor.period]) = .short :=
+  arm_frame_period typ ht brand hb
+
+/-- …and with anything alphanumeric-or-space after the period that has fewer than
+    43 payload characters (generalises `C16_armored_needs_block`) -/
+theorem C16_armored_needs_block_gen (typ : Int) (ht : Armorable typ) (brand : Bytes) (hb : BrandOK brand) (w : Bytes)
+    (hw : ∀ c ∈ w, isAlnum c = true ∨ c = Armor.space)
+    (hfew : (w.filter (· != Armor.space)).length < 43) :
+    armoredPrefix (Armor.header typ brand ++ [Armor.period] ++ w) = .short :=
+  arm_needs_block_gen typ ht brand hb w hw hfew
+
 /-- **Armored, soundness**: an answer is the binary classifier's answer on the
-    decoded payload bytes, under the frame label of that very mode -/
+    bytes `dec` obtained by base62-decoding, block by block, the payload
+    characters that *this very prefix* shows after its frame (`payload` is the
+    regular expression's capture on the normalised prefix, `chars` its non-space
+    characters; at least one full block, i.e. 32 bytes, was decoded), under the
+    frame label of that very mode -/
 theorem C16_armored_sound (pref brand : Bytes) (t : Int) (v : Version) (h : armoredPrefix pref = .ok (brand, t, v)) :
-    ∃ typStr payload dec, matchHeader (Armor.trimSpace (Armor.collapse pref)) = some (brand, typStr, payload) ∧
+    ∃ typStr payload chars dec,
+      matchHeader (Armor.trimSpace (Armor.collapse pref)) = some (brand, typStr, payload) ∧
+      chars = payload.filter (· != Armor.space) ∧
+      dec = (Basex.decodePrefix Gen.base62Std (chars.length + 1) chars).1 ∧
+      32 ≤ dec.length ∧
       binarySlice dec = .ok (t, v) ∧
       (typStr = Gen.c_sp_EncryptionArmorString ∨ typStr = Gen.c_sp_SignedArmorString ∨
         typStr = Gen.c_sp_DetachedSignatureArmorString) ∧
@@ -88,10 +121,37 @@ theorem C16_armored_sound (pref brand : Bytes) (t : Int) (v : Version) (h : armo
       (t = mtDetached → typStr = Gen.c_sp_DetachedSignatureArmorString) :=
   arm_sound pref brand t v h
 
-/-- **No input is consumed**: the model of `ClassifyStream` is a pure function of
-    the bytes `Peek` shows — it threads no reader state (structural) -/
-theorem C16_no_consume (size : Nat) (a b : Bytes) (h : a = b) : classifyStream size a = classifyStream size b :=
-  stream_is_pure size a b h
+/-! ## the stream classifier -/
+
+/-- **Peeks only**: the answer of `ClassifyStream` on a reader with buffer `size`
+    depends on nothing but the first `size` bytes of the stream — exactly what
+    `Peek(size)` returns without consuming.  (That the reader afterwards still
+    delivers every byte is observed by the correspondence: remaining-bytes check.) -/
+theorem C16_peeks_only (size : Nat) (a b : Bytes) (h : a.take size = b.take size) :
+    classifyStream size a = classifyStream size b :=
+  stream_peeks_only size a b h
+
+/-- **The stream classifier on a genuine binary message** (header start as in
+    `C16_binary_correct`), for every reader buffer of at least 23 bytes: not
+    armored, no brand, the mode and version of the header -/
+theorem C16_stream_binary_correct (btag atag tail : Bytes) (hb : IsBinTag btag) (ha : IsArrTag atag)
+    (ma mi t : Nat) (hma : ma < 128) (hmi : mi < 128) (ht : isMode (t : Int) = true) (size : Nat) (hs : 23 ≤ size)
+    (hlen : 23 ≤ (btag ++ atag ++ encode (.str Gen.c_sp_FormatName) ++ encode (.arr [.int ma, .int mi]) ++ encode (.int t) ++ tail).length) :
+    classifyStream size (btag ++ atag ++ encode (.str Gen.c_sp_FormatName) ++ encode (.arr [.int ma, .int mi]) ++ encode (.int t) ++ tail) =
+      .ok (false, [], (t : Int), ⟨ma, mi⟩) :=
+  stream_binary_correct btag atag tail hb ha ma mi t hma hmi ht size hs hlen
+
+/-- a text that starts with a bin8/bin16/bin32 tag byte is never taken for armor -/
+theorem C16_binary_not_armored (k : UInt8) (hk : k = 0xc4 ∨ k = 0xc5 ∨ k = 0xc6) (y : Bytes) :
+    armoredPrefix (k :: y) = .notSaltpack :=
+  arm_binlead k hk y
+
+/-- **The stream classifier on armored input**: whatever the armored classifier
+    answers on the peeked bytes is the stream's answer, flagged as armored -/
+theorem C16_stream_armored_correct (size : Nat) (m brand : Bytes) (t : Int) (v : Version)
+    (h : armoredPrefix (m.take size) = .ok (brand, t, v)) :
+    classifyStream size m = .ok (true, brand, t, v) :=
+  stream_armored_correct size m brand t v h
 
 /-! ## non-vacuity -/
 example : IsBinTag [0xc4, 0x97] ∧ IsArrTag [0x96] := ⟨Or.inl ⟨_, rfl⟩, Or.inl ⟨0x96, by decide, by decide, rfl⟩⟩
